@@ -117,8 +117,20 @@ def gen_case(rng, combo):
         elif op == "sm-nplate":
             sp["k"] = rng.choice([1, 2, 2, 3])
         p["sm"] = {"op": op, "params": sp}
-    p["fraction"] = rng.choice([0.0, 0.1, 0.25, 1 / 3.0, 0.5, 0.5, 0.7, 1.0, None, rng.random()])
+    p["fraction"] = rng.choice([0.0, 0.05, 0.25, 1 / 3.0, 0.5, 0.5, 0.7, 1.0, None, None, rng.random()])
     return {"op": "pipeline", "params": p, "raw": raw, "npseed": rng.randrange(2 ** 31)}
+
+
+def wide_case(rng):
+    """257..260 rows, > 127 distinct (name, dose) treatment ids, segregating generator with limit 2 (>= 129 plates), no smoother"""
+    n = rng.randint(257, 260)
+    samples = P._samples(rng, 3)
+    tn = [["t%d" % (i % 140), "u%d" % (i % 7)] for i in range(n)]
+    td = [[1.0 + (i % 3), 1.0] for i in range(n)]
+    raw = dict(ctrl="", arity=2, tnames=tn, tdoses=td, snames=[samples[i % 3] for i in range(n)], pnames=["p%d" % (i % 5) for i in range(n)],
+               obs=P.obs_values(rng, n), mask=None, tmap=None, smap=None)
+    p = {"init": None, "gen": {"op": "gen-seg", "params": {"max": 2}}, "sm": None, "fraction": 0.5}
+    return {"op": "pipeline", "params": p, "raw": raw, "npseed": rng.randrange(2 ** 31), "stale_outputs": True}
 
 
 def combos(n, offset):
@@ -214,6 +226,8 @@ def execute(case):
              (core.RetrospectivePlateSmoother, "smooth_plates", core.RetrospectivePlateSmoother.smooth_plates),
              (sys, "argv", sys.argv)]
     prev_disable = logging.root.manager.disable
+    blog = logging.getLogger("batchie")
+    prev_level, prev_handlers = blog.level, list(blog.handlers)
     try:
         try:
             S.build(case["raw"]).save_h5(os.path.join(d, "in.h5"))
@@ -229,6 +243,11 @@ def execute(case):
         core.RetrospectivePlateGenerator.generate_plates = marked("gen", saved[5][2])
         core.RetrospectivePlateSmoother.smooth_plates = marked("sm", saved[6][2])
         sys.argv = argv_of(case, d)
+        if case.get("stale_outputs"):
+            # HARDENING item 12: both output paths already hold another screen (a second save to the same path must replace it)
+            stale = P.same_size_variant(__import__("random").Random(case["npseed"]), case["raw"])
+            S.build(stale).save_h5(os.path.join(d, "train.h5"))
+            shutil.copyfile(os.path.join(d, "train.h5"), os.path.join(d, "test.h5"))
         logging.disable(logging.CRITICAL)
         try:
             cli.main()
@@ -245,9 +264,10 @@ def execute(case):
         for obj, name, val in saved:
             setattr(obj, name, val)
         logging.disable(prev_disable)
-        root = logging.getLogger()
-        for h in list(root.handlers):       # configure_logging adds one handler per main() call
-            root.removeHandler(h)
+        for h in list(blog.handlers):       # configure_logging adds one stream handler per main() call and sets the level to INFO
+            if h not in prev_handlers:
+                blog.removeHandler(h)
+        blog.setLevel(prev_level)
         shutil.rmtree(d, ignore_errors=True)
     o.log = rec.log
     o.pops = proxy.pops
@@ -339,11 +359,16 @@ def oracles(res, case, o, prop):
     filtered = exps(s, [i for i in range(s.size) if keep[i]])
     both = exps(tr) + exps(te)
     if prop == "C11":
-        # Prepare_conserves
-        if not P.sub_multiset(both, filtered):
-            fail("training + test experiments are not a sub-collection of the filtered input", {"n": len(both)}, {"filtered": len(filtered)})
-        elif p["sm"] is None and Counter(both) != Counter(filtered):
-            fail("without a smoother training + test must be exactly the filtered input", {"n": len(both)}, {"filtered": len(filtered)})
+        # Prepare_conserves.  WHICH rows the combination filter keeps is C13's clause, not C11's: C11 judges conservation relative to
+        # what the implementation's own filter returns (generators keep everything, smoothers a sub-collection, the hold-out partitions)
+        from batchie.data import filter_dataset_to_treatments_that_appear_in_at_least_one_combo as real_filter
+        own = exps(real_filter(S.build(raw)))
+        if not P.sub_multiset(both, exps(s)):
+            fail("training + test experiments are not a sub-collection of the input", {"n": len(both)}, {"input": int(s.size)})
+        elif not P.sub_multiset(both, own):
+            fail("training + test experiments are not a sub-collection of the filtered screen", {"n": len(both)}, {"filtered": len(own)})
+        elif p["sm"] is None and Counter(both) != Counter(own):
+            fail("without a smoother training + test must be exactly the filtered screen", {"n": len(both)}, {"filtered": len(own)})
         # Prepare_test_fully_observed_train_mask
         if not bool(np.all(te.observation_mask)):
             fail("test screen is not fully observed", [bool(b) for b in te.observation_mask], "all observed")
@@ -359,23 +384,22 @@ def oracles(res, case, o, prop):
             elif held.get(nm, 0) != math.ceil(size * f):
                 fail("test screen holds the wrong number of experiments of a plate", {"plate": nm, "size": size, "held": held.get(nm, 0), "fraction": f},
                      math.ceil(size * f))
-        if not bool(np.any(tr.observation_mask)) and tr.size + te.size > 0:
-            fail("training screen has no observed plate to start from", None, ">= 1 observed plate")
-        # Prepare_shared_mappings
+        # Prepare_shared_mappings is proved about the model; the TEXT of C11 does not mention mappings (C03 does), so on the
+        # implementation a difference is a broken tie, not a C11 violation
         for k, lab in ((0, "treatment"), (1, "sample")):
             ma = (tr.treatment_mapping, tr.sample_mapping)[k]
             mb = (te.treatment_mapping, te.sample_mapping)[k]
             if [list(map(str, x)) for x in ma] != [list(map(str, x)) for x in mb]:
-                fail("training and test screens carry different %s mappings" % lab, None, "identical mappings")
+                P.tie(res, prop, case, "training and test screens carry different %s mappings" % lab, None)
         for v, lab in ((tr, "training"), (te, "test")):
             tm = {(str(a), float(b)): int(c) for a, b, c in zip(*v.treatment_mapping)}
             sm = {str(a): int(c) for a, c in zip(*v.sample_mapping)}
             for i in range(v.size):
                 if int(v.sample_ids[i]) != sm.get(str(v.sample_names[i]), None):
-                    fail("%s sample ids do not follow the saved mapping" % lab, int(v.sample_ids[i]), sm.get(str(v.sample_names[i])))
+                    P.tie(res, prop, case, "%s sample ids do not follow the saved mapping" % lab, int(v.sample_ids[i]))
                     break
                 if [int(x) for x in v.treatment_ids[i]] != [tm.get((str(a), float(b))) for a, b in zip(v.treatment_names[i], v.treatment_doses[i])]:
-                    fail("%s treatment ids do not follow the saved mapping" % lab, [int(x) for x in v.treatment_ids[i]], None)
+                    P.tie(res, prop, case, "%s treatment ids do not follow the saved mapping" % lab, [int(x) for x in v.treatment_ids[i]])
                     break
     else:
         # Prepare_initial_plate_covers: with an initial generator and no smoother the observed part of the training screen
@@ -415,8 +439,14 @@ def oracles(res, case, o, prop):
 def run_stream(ctx, res, prop, lines, expect, cases):
     rng = ctx.subrng(prop, "pipeline")
     n = ctx.scale(36, 260, 92)
-    for combo in combos(n, (ctx.seed * 29) % 84):
+    todo = []
+    for k, combo in enumerate(combos(n, (ctx.seed * 29) % 84)):
         case = gen_case(rng, combo)
+        if k % 3 == 1:
+            case["stale_outputs"] = True
+        todo.append(case)
+    todo.append(wide_case(rng))
+    for case in todo:
         o = execute(case)
         res.evaluations += 1
         res.count("op.pipeline")
@@ -429,6 +459,12 @@ def run_stream(ctx, res, prop, lines, expect, cases):
         res.count("pipeline.outcome." + ("error:" + type(o.err).__name__ if o.err is not None else "returned"))
         oracles(res, case, o, prop)
         if o.err is None:
+            if case.get("stale_outputs"):
+                res.count("class.instalments: output paths already hold another screen of the same shape")
+            if o.inp.size >= 257:
+                res.count("class.int-width: >= 257 rows / >= 128 plates / >= 128 treatment ids through load_h5 -> main -> save_h5")
+            if p["fraction"] is None or p["fraction"] in (0.05, 0.25):
+                res.count("class.default-budget: --holdout-fraction omitted (default 0.1) or just below / above it")
             if o.test.size > 0 and o.train.size > 0:
                 res.nontrivial.add(("pipeline", common.short_hash(case)))
             if p["init"] is not None and p["sm"] is None:
